@@ -30,6 +30,7 @@ type Env struct {
 	dry       bool
 	pkg       *types.Package
 	depth     int
+	curSt     *State
 }
 
 func (fr *Frame) specEnv(st, old *State) *Env {
@@ -747,6 +748,21 @@ func (env *Env) evalCall(e *SCall) (Val, error) {
 			}
 			sub := *env
 			sub.st = env.old
+			if env.curSt == nil {
+				sub.curSt = env.st
+			}
+			return sub.eval(e.Args[0])
+		case "cur":
+			// cur(e) inside old(...): evaluate e in the current state again
+			if len(e.Args) != 1 {
+				return Val{}, fmt.Errorf("cur takes one argument")
+			}
+			if env.curSt == nil {
+				return env.eval(e.Args[0])
+			}
+			sub := *env
+			sub.st = env.curSt
+			sub.curSt = nil
 			return sub.eval(e.Args[0])
 		case "len", "cap":
 			if len(e.Args) != 1 {
